@@ -3,6 +3,7 @@ import json
 import os
 
 import common as C
+import optsdom
 
 
 def build(ctx):
@@ -157,6 +158,7 @@ def run(ctx):
     ctx.add_summary(summ, "httptest server vs ideal map replayed with the library")
     lsum = lib_oracle(ctx, ctx.scale(700, 8000))
     ctx.add_summary(lsum, "stored objects before/after every request")
+    optsdom.run(ctx, "C17")
     if lsum:
         ctx.cov["stored_object_changes_by_request"] = lsum.get("changes", {})
         ctx.cov["stored_object_change_samples"] = lsum.get("change_samples", {})
@@ -167,6 +169,8 @@ def run(ctx):
 
 
 def replay(path):
+    if optsdom.is_case(path):
+        return optsdom.replay(path)
     ok, out = C.build_harness()
     if not ok:
         print(out[-2000:])
